@@ -159,6 +159,48 @@ theorem retry_succeeds (σ : Sched) (ord' : List P → List P) (hord' : ∀ l, (
   exact ⟨hs, transaction_txn tmp ord' noFault false _ s1 h1,
     success_spec tmp ord' noFault hord' s1 h1 frags hg hok hs⟩
 
+/-- one earlier save of a history on the same handler: its fault schedule, what its pre-checks raised, its mode, the
+files it was to write (the model may have been edited in between: each save has its own `frags`), and the iteration
+order its `set` happened to have -/
+structure PastSave (P : Type) where
+  σ : Sched
+  pre : Option Err
+  dry : Bool
+  frags : List (Frag P)
+  ord : List P → List P
+
+/-- the handler and the directory after a history of saves -/
+def afterHistory (hist : List (PastSave P)) (s : St P) : St P :=
+  hist.foldl (fun s h => (save tmp h.ord h.σ h.pre h.dry h.frags s).1) s
+
+theorem afterHistory_txn (hist : List (PastSave P)) : ∀ (s : St P), s.txn = none → (afterHistory tmp hist s).txn = none := by
+  induction hist with
+  | nil => intro s h; exact h
+  | cons p rest ih =>
+    intro s h
+    simp only [afterHistory, List.foldl_cons]
+    apply ih
+    cases hp : p.pre with
+    | none => simp only [save]; exact transaction_txn tmp p.ord p.σ p.dry _ s h
+    | some e => simpa [save] using h
+
+/-- **Any history, then a save.**  After any number of earlier saves on the same handler and model object — failed at
+any point with any fault sequence, refused by the pre-checks, dry runs, successful ones, each with its own set of
+files (edits in between) — a fault-free save succeeds, resets the transaction and installs the complete new content
+of **every** file it is given, leaving no temporary file: nothing an earlier save did or recorded makes a later save
+skip a file. -/
+theorem save_after_any_history (hord : ∀ l, (ord l).Perm l) (hist : List (PastSave P)) (s : St P) (h : s.txn = none)
+    (frags : List (Frag P)) (hg : GoodFrags [] frags) (hok : TmpOK tmp (frags.map (·.path))) :
+    let s1 := afterHistory tmp hist s
+    (save tmp ord noFault none false frags s1).2 = none ∧
+    (save tmp ord noFault none false frags s1).1.txn = none ∧
+    ∀ q, (save tmp ord noFault none false frags s1).1.fs q = committed tmp frags s1.fs q := by
+  intro s1
+  have h1 : s1.txn = none := afterHistory_txn tmp hist s h
+  have hs := noFault_succeeds tmp ord hord s1 h1 frags hg hok false
+  exact ⟨hs, transaction_txn tmp ord noFault false _ s1 h1,
+    success_spec tmp ord noFault hord s1 h1 frags hg hok hs⟩
+
 /-- The checks of `MelodyLoader.save` run before the transaction opens: if they raise, nothing at
 all has happened. -/
 theorem checks_come_first (σ : Sched) (e : Err) (dry : Bool) (frags : List (Frag P)) (s : St P) :
@@ -323,6 +365,16 @@ example :
 example :
     let r := save w_tmp id noFault none false w_frags w_s
     r.2 = none ∧ r.1.fs 1 = some [1, 7] ∧ r.1.fs 2 = some [1, 8] ∧ r.1.fs 101 = none := by
+  decide
+
+/-- a history: a save that fails while the second file is closed (index 9), a dry run, then the real save — both files
+hold their complete new content, the first one too although it "went through" twice before -/
+example :
+    let hist : List (PastSave Nat) := [⟨single 9 ⟨.os 28, false⟩, none, false, w_frags, id⟩, ⟨noFault, none, true, w_frags, id⟩]
+    let s1 := afterHistory w_tmp hist w_s
+    let r := save w_tmp id noFault none false w_frags s1
+    s1.fs 1 = some [1, 5] ∧ s1.fs 2 = none ∧ r.2 = none ∧ r.1.fs 1 = some [1, 7] ∧ r.1.fs 2 = some [1, 8] ∧
+    r.1.fs 101 = none ∧ r.1.fs 102 = none := by
   decide
 
 end Capella.Props.C15
